@@ -6,7 +6,7 @@
 //!   `fact N`  -> `F <flat>`: for every m in 0..=N the pairs `p c` of factorize(m) followed by -1;
 //!                a panic inside factorize(m) (after the pairs already yielded) is -2 followed by -1.
 //!                First pass: `next()` by hand, ascending m, one iterator at a time; an exhausted iterator is asked
-//!                twice more and must keep answering `None`.  Second pass on the same Sieve: the provided Iterator
+//!                twice more and must keep answering `None`.  Second pass on the same Sieve (m >= 1): the provided Iterator
 //!                methods (`collect`, `for`, `count`, `last`, `fold`, `nth`, `size_hint`, `max`/`sum` through `map`,
 //!                `by_ref().take`, `peekable`, `chain`) must agree with the first pass.
 //!   `tabr N SEED`  -> the same line as `tab N`, but the values are collected by a seeded random history on one
@@ -133,7 +133,8 @@ fn by_for(s: &Sieve, m: usize) -> Fz {
 
 /// the provided Iterator methods against the result of the hand-written `next()` walk
 fn adaptors(s: &Sieve, m: usize, f: &Fz) -> Result<(), String> {
-    if f.end == End::Long {
+    // m = 0 is outside the property (the first pass already records what next() does there)
+    if f.end == End::Long || m == 0 {
         return Ok(());
     }
     let mi = m as i32;
